@@ -51,13 +51,13 @@ func (v hVals) String() string {
 func (v hVals) MarshalJSON() ([]byte, error) { return []byte(fmt.Sprintf("%q", v.String())), nil }
 
 type hOp struct {
-	Kind    string  `json:"op"`               // Add Remove AddN RemoveN DirectAdd DirectAddN DirectRemoveN ImportSet ImportClear Optimize Freeze Rebase
-	Vals    hVals   `json:"vals,omitempty"`   // arguments in call order (duplicates kept); for imports: the payload's set
-	Fmt     string  `json:"fmt,omitempty"`    // imports: pilosa | official
-	Encs    string  `json:"encs,omitempty"`   // imports: container encodings of the payload, by key
-	RowSize uint64  `json:"rowSize,omitempty"`
-	Switch  bool    `json:"switch,omitempty"` // Freeze: continue the history on the frozen copy
-	Remap   bool    `json:"remap,omitempty"`  // Rebase: remap containers onto the new base bytes (read-only)
+	Kind    string `json:"op"`             // Add Remove AddN RemoveN DirectAdd DirectAddN DirectRemoveN ImportSet ImportClear Optimize Freeze Rebase
+	Vals    hVals  `json:"vals,omitempty"` // arguments in call order (duplicates kept); for imports: the payload's set
+	Fmt     string `json:"fmt,omitempty"`  // imports: pilosa | official
+	Encs    string `json:"encs,omitempty"` // imports: container encodings of the payload, by key
+	RowSize uint64 `json:"rowSize,omitempty"`
+	Switch  bool   `json:"switch,omitempty"` // Freeze: continue the history on the frozen copy
+	Remap   bool   `json:"remap,omitempty"`  // Rebase: remap containers onto the new base bytes (read-only)
 	spec    vBitmapSpec
 }
 
